@@ -1,5 +1,248 @@
 import RtcVerif.Model.C02Loop
-/-! placeholder while the harness is brought up -/
+import RtcVerif.Model.C02KeepSoft
+import RtcVerif.Proofs.C04Store
+import RtcVerif.Proofs.C02Loop
+import RtcVerif.Proofs.C02KeepSoft
+import Mathlib.Algebra.Order.Field.Basic
+import Mathlib.Tactic.Linarith
+import Mathlib.Tactic.Ring
+import Mathlib.Tactic.FieldSimp
+import Mathlib.Tactic.NormNum
+/-!
+# C02 — lexicographic order: later priorities never degrade earlier ones
+
+Model: `Model/C02Loop.lean` (store + multi-pass loop over an arbitrary solver oracle),
+`Model/C04Store.lean` (`update_bounds`, soft-to-hard conversion), `Model/C02KeepSoft.lean`
+(keep_soft / single-pass objective rows).  Helper lemmas: `Proofs/C04Store.lean`,
+`Proofs/C02Loop.lean`, `Proofs/C02KeepSoft.lean`.
+-/
 namespace RtcVerif.C02
-theorem placeholder : (1 : Nat) = 1 := rfl
+open RtcVerif RtcVerif.C04
+
+/-! ## `_GoalConstraint.update_bounds` (any linear order: scalars, ±inf, element-wise series) -/
+
+/-- the executable `updateBounds` on `EVal` is the generic function the lemmas talk about -/
+theorem updateBounds_model_is_generic (s o : EIvl) (e : Bool) : updateBounds s o e = ub s o e := rfl
+
+/-- `enforce="other"` (soft-to-hard conversion): the result lies inside the previous entry -/
+theorem updateBounds_other_within_previous {α : Type} [LinearOrder α] (new prev : Ivl α)
+    (h : prev.lo ≤ prev.hi) : (ub new prev false).sub prev := ub_other_sub new prev h
+
+/-- `enforce="self"` (critical goal merged into the store; repaired code, c555684): the result
+    lies inside the stored entry -/
+theorem updateBounds_self_within_previous {α : Type} [LinearOrder α] (stored new : Ivl α)
+    (h : stored.lo ≤ stored.hi) : (ub stored new true).sub stored := ub_self_sub stored new h
+
+/-- when the two intervals intersect, both modes return exactly the intersection -/
+theorem updateBounds_eq_intersection {α : Type} [LinearOrder α] (s o : Ivl α) (e : Bool) (x : α)
+    (hs : Ivl.mem x s) (ho : Ivl.mem x o) : ub s o e = ⟨max s.lo o.lo, min s.hi o.hi⟩ :=
+  ub_eq_inter s o e x hs ho
+
+/-- the result is always a consistent interval -/
+theorem updateBounds_consistent {α : Type} [LinearOrder α] (s o : Ivl α) (e : Bool) :
+    (ub s o e).lo ≤ (ub s o e).hi := ub_ok s o e
+
+/-- a new interval (e.g. an equality-folded one) inside a hull `[a, b]` that shares the achieved
+    value `v` with the previous entry merges to something inside the hull -/
+theorem updateBounds_other_within_hull {α : Type} [LinearOrder α] (new prev : Ivl α) (a b v : α)
+    (hn : new.lo ≤ new.hi) (hna : a ≤ new.lo) (hnb : new.hi ≤ b) (hva : a ≤ v) (hvb : v ≤ b)
+    (hv : Ivl.mem v prev) : (ub new prev false).sub ⟨a, b⟩ :=
+  ub_other_within_hull new prev a b v hn hna hnb hva hvb hv
+
+/-- **F4 (fixed): the code before c555684 loosened the store**: stored `[2, 5]` merged with a new
+    `[0, 10]` gave `[0, 10]`; the repaired code keeps `[2, 5]`. -/
+theorem updateBounds_self_loosens_witness :
+    updateBoundsLegacy ⟨EVal.fin 2, EVal.fin 5⟩ ⟨EVal.fin 0, EVal.fin 10⟩ true = ⟨EVal.fin 0, EVal.fin 10⟩
+    ∧ updateBounds ⟨EVal.fin 2, EVal.fin 5⟩ ⟨EVal.fin 0, EVal.fin 10⟩ true = ⟨EVal.fin 2, EVal.fin 5⟩
+    ∧ updateBoundsLegacy ⟨EVal.fin 2, EVal.pinf⟩ ⟨EVal.ninf, EVal.fin 8⟩ true = ⟨EVal.ninf, EVal.fin 8⟩
+    ∧ updateBounds ⟨EVal.fin 2, EVal.pinf⟩ ⟨EVal.ninf, EVal.fin 8⟩ true = ⟨EVal.fin 2, EVal.fin 8⟩ := by
+  decide
+
+/-! ## the store only tightens -/
+
+/-- one soft-to-hard conversion keeps every consistent entry, possibly tightened -/
+theorem store_monotone_convert (st : Store) (k : Key) (new : EIvl) : Shrinks st (storeOther st k new) :=
+  storeOther_shrinks st k new
+
+/-- one critical-goal insertion keeps every consistent entry, possibly tightened -/
+theorem store_monotone_critical (st : Store) (k : Key) (new : EIvl) : Shrinks st (storeSelf st k new) :=
+  storeSelf_shrinks st k new
+
+/-- **`store_monotone`**: along any run — any goals, any solver answers — the stores handed to the
+    solver at consecutive priorities form a chain: every consistent entry of the store at priority
+    `k` is still present at `k+1`, contained in the previous interval. -/
+theorem store_monotone (o : HOpts) (n : Nat) (oracle : Store → List Goal → Option Sol)
+    (prios : List (List Goal)) (st : Store) : Chained (runStores o n oracle prios st) :=
+  (runStores_chained o n oracle prios st).1
+
+/-! ## no degradation -/
+
+/-- **`C02_no_degradation`** (multi-pass).  For every list of priorities, every option set with
+    non-negative relaxations, and *every* solver oracle that, when it answers, answers with a point
+    satisfying the store rows and the soft rows of the priority (`SatStore`, `SoftOK`): in the run
+    of the loop, for all solved priorities `a < b` and every non-critical goal `g` of priority `a`,
+    at every step the scaled value of `g` in the solution of `b` lies in the interval
+    `hardStep` derived from the solution of `a` (achieved epsilon + `violation_relaxation`, goal
+    relaxation, `constraint_relaxation`; minimisation goals: achieved value).
+    `NoFold`: equality folding (two bounds closer than `equality_threshold` replaced by their
+    mean) does not trigger — with folding the statement holds for a key used by one goal per
+    priority (`updateBounds_other_within_hull`) and otherwise up to `equality_threshold/2`.
+    `Sane`: what validation guarantees (range finite, targets inside, relaxation ≥ 0) and one
+    nominal per function key (finding candidate F25 otherwise). -/
+theorem C02_no_degradation (o : HOpts) (n : Nat) (nomOf : String → Rat)
+    (oracle : Store → List Goal → Option Sol) (prios : List (List Goal))
+    (hvr : 0 ≤ o.violationRelaxation) (hcr : 0 ≤ o.constraintRelaxation)
+    (hsane : ∀ gs ∈ prios, ∀ g ∈ gs, g.critical = false → Sane nomOf g)
+    (hfeas : ∀ st gs s, gs ∈ prios → oracle st gs = some s →
+      SatStore nomOf s st ∧
+      ∀ gj g, gs[gj]? = some g → g.critical = false → g.hasTargetBounds = true → ∀ i < n,
+        SoftOK g s gj i ∧ NoFold o g (s.eps gj i + o.violationRelaxation) i) :
+    NoDegr o n nomOf (runLoop o n oracle prios [] []).1 := by
+  apply runLoop_noDegr o n nomOf oracle prios
+  · intro st gs s hgs ho
+    obtain ⟨hsat, hsoft⟩ := hfeas st gs s hgs ho
+    refine ⟨hsat, ?_⟩
+    intro gj g hg hcrit i hi
+    exact valueIn_of_feasible o nomOf g s gj i hcrit
+      (hsane gs hgs g (List.mem_of_getElem? hg) hcrit) hvr hcr
+      (fun ht => (hsoft gj g hg hcrit ht i hi).1) (fun ht => (hsoft gj g hg hcrit ht i hi).2)
+  · exact fun gs h => h
+  · intro p hp; cases hp
+  · intro a b pa pb _ ha; simp at ha
+
+/-- what `NoDegr` says for the lower side of a target goal: with `ε` the violation achieved at
+    the goal's own priority, every later solution has
+    `f ≥ m_t + (ε + violation_relaxation)(m - m_t) - relaxation - constraint_relaxation·nom`. -/
+theorem C02_retained_target_min (o : HOpts) (nomOf : String → Rat) (g : Goal) (sa sb : Sol) (gj i : Nat)
+    (tm lo : Rat) (ht : g.hasTargetBounds = true) (hcrit : g.critical = false)
+    (hmin : g.hasMin = true) (htm : g.mAt 0 i = XVal.e (EVal.fin tm)) (hlo : g.loAt 0 = XVal.e (EVal.fin lo))
+    (hnom : g.nomAt 0 = nomOf g.fk) (hpos : 0 < nomOf g.fk)
+    (hnf : NoFold o g (sa.eps gj i + o.violationRelaxation) i)
+    (h : Ivl.mem (scaled nomOf sb (g.fk, i)) (hardStep o g sa gj i)) :
+    tm + (sa.eps gj i + o.violationRelaxation) * (lo - tm) - g.relaxation
+      - o.constraintRelaxation * nomOf g.fk ≤ sb.fval g.fk i := by
+  have h1 := h.1
+  unfold NoFold at hnf
+  simp only [hardStep, ht, if_true, hardTargetStep, hnf, scaled] at h1
+  have hval : targetLo g (sa.eps gj i + o.violationRelaxation) i =
+      EVal.fin (((sa.eps gj i + o.violationRelaxation) * (lo - tm) + tm - g.relaxation) / nomOf g.fk) := by
+    simp [targetLo, hmin, htm, finOr, hcrit, hlo, finVal, hnom]
+  rw [hval] at h1
+  simp only [subFin, EVal.le_fin_fin] at h1
+  have h2 : ((sa.eps gj i + o.violationRelaxation) * (lo - tm) + tm - g.relaxation) / nomOf g.fk
+      ≤ sb.fval g.fk i / nomOf g.fk + o.constraintRelaxation := by linarith
+  have h3 := (div_le_iff₀ hpos).1 h2
+  have h4 : (sb.fval g.fk i / nomOf g.fk + o.constraintRelaxation) * nomOf g.fk
+      = sb.fval g.fk i + o.constraintRelaxation * nomOf g.fk := by
+    field_simp
+  rw [h4] at h3
+  linarith
+
+/-- the upper side -/
+theorem C02_retained_target_max (o : HOpts) (nomOf : String → Rat) (g : Goal) (sa sb : Sol) (gj i : Nat)
+    (tM hi : Rat) (ht : g.hasTargetBounds = true) (hcrit : g.critical = false)
+    (hmax : g.hasMax = true) (htM : g.MAt 0 i = XVal.e (EVal.fin tM)) (hhi : g.hiAt 0 = XVal.e (EVal.fin hi))
+    (hnom : g.nomAt 0 = nomOf g.fk) (hpos : 0 < nomOf g.fk)
+    (hnf : NoFold o g (sa.eps gj i + o.violationRelaxation) i)
+    (h : Ivl.mem (scaled nomOf sb (g.fk, i)) (hardStep o g sa gj i)) :
+    sb.fval g.fk i ≤ tM + (sa.eps gj i + o.violationRelaxation) * (hi - tM) + g.relaxation
+      + o.constraintRelaxation * nomOf g.fk := by
+  have h1 := h.2
+  unfold NoFold at hnf
+  simp only [hardStep, ht, if_true, hardTargetStep, hnf, scaled] at h1
+  have hval : targetHi g (sa.eps gj i + o.violationRelaxation) i =
+      EVal.fin (((sa.eps gj i + o.violationRelaxation) * (hi - tM) + tM + g.relaxation) / nomOf g.fk) := by
+    simp [targetHi, hmax, htM, finOr, hcrit, hhi, finVal, hnom]
+  rw [hval] at h1
+  simp only [addFin, EVal.le_fin_fin] at h1
+  have h2 : sb.fval g.fk i / nomOf g.fk - o.constraintRelaxation
+      ≤ ((sa.eps gj i + o.violationRelaxation) * (hi - tM) + tM + g.relaxation) / nomOf g.fk := by linarith
+  have h3 := (le_div_iff₀ hpos).1 h2
+  have h4 : (sb.fval g.fk i / nomOf g.fk - o.constraintRelaxation) * nomOf g.fk
+      = sb.fval g.fk i - o.constraintRelaxation * nomOf g.fk := by
+    field_simp
+  rw [h4] at h3
+  linarith
+
+/-- minimisation goals: every later solution has `f ≤ f* + relaxation + constraint_relaxation·nom`,
+    and `f = f*` when the value is fixed (`fix_minimized_values`, no goal relaxation). -/
+theorem C02_retained_minimisation (o : HOpts) (nomOf : String → Rat) (g : Goal) (sa sb : Sol) (gj i : Nat)
+    (ht : g.hasTargetBounds = false) (hnom : g.nomAt 0 = nomOf g.fk) (hpos : 0 < nomOf g.fk)
+    (hcr : 0 ≤ o.constraintRelaxation) (hrel : 0 ≤ g.relaxation)
+    (h : Ivl.mem (scaled nomOf sb (g.fk, i)) (hardStep o g sa gj i)) :
+    sb.fval g.fk i ≤ sa.fval g.fk i + g.relaxation + o.constraintRelaxation * nomOf g.fk
+    ∧ ((o.fixMinimizedValues && g.relaxation == 0) = true → sb.fval g.fk i = sa.fval g.fk i) := by
+  simp only [hardStep, ht, Bool.false_eq_true, if_false, hardMinStep, scaled, hnom] at h
+  have hcn : 0 ≤ o.constraintRelaxation * nomOf g.fk := mul_nonneg hcr (le_of_lt hpos)
+  constructor
+  · split at h
+    · have h2 := h.2
+      simp only [EVal.le_fin_fin] at h2
+      have h3 := (div_le_div_iff_of_pos_right hpos).1 h2
+      linarith
+    · have h2 := h.2
+      simp only [EVal.le_fin_fin] at h2
+      have h4 := (div_le_iff₀ hpos).1 h2
+      have h5 : ((sa.fval g.fk i + g.relaxation) / nomOf g.fk + o.constraintRelaxation) * nomOf g.fk
+          = sa.fval g.fk i + g.relaxation + o.constraintRelaxation * nomOf g.fk := by
+        field_simp
+      rw [h5] at h4
+      exact h4
+  · intro hfix
+    rw [if_pos hfix] at h
+    obtain ⟨h1, h2⟩ := h
+    simp only [EVal.le_fin_fin] at h1 h2
+    have a := (div_le_div_iff_of_pos_right hpos).1 h1
+    have b := (div_le_div_iff_of_pos_right hpos).1 h2
+    exact le_antisymm b a
+
+/-! ## keep_soft_constraints and single pass: the objective of every solved priority is retained -/
+
+/-- **keep_soft / single pass (append method)**: for every solver oracle whose answers satisfy the
+    retained objective rows, the goal objective of every solved priority `a` evaluated at the
+    solution of any later priority `b` is at most its value at the solution of `a` plus
+    `constraint_relaxation` (and equal to it under `fix_minimized_values`). -/
+theorem C02_keep_soft_no_degradation (fix : Bool) (cr : Rat)
+    (oracle : List ObjRow → Nat → Option ObjSol)
+    (hc : ∀ rows k s, oracle rows k = some s → SatRows s rows) (K : Nat) :
+    ObjNoDegr fix cr 0 (appendLoop fix cr oracle K 0 [] []).1 := by
+  have := appendLoop_noDegr fix cr oracle hc 0 K [] [] (by simp) (by intro a b sa sb _ ha; simp at ha)
+  simpa using this
+
+/-- **single pass, `UPDATE_OBJECTIVE_CONSTRAINT_BOUNDS`**: the same with all objective rows present
+    from the start (free) and their bounds overwritten after each priority. -/
+theorem C02_single_pass_update_no_degradation (fix : Bool) (cr : Rat)
+    (oracle : List ObjRow → Nat → Option ObjSol)
+    (hc : ∀ rows k s, oracle rows k = some s → SatRows s rows) (K : Nat) :
+    ObjNoDegr fix cr 0 (updateLoop fix cr oracle K 0 (freeRows K) []).1 := by
+  have := updateLoop_noDegr fix cr oracle hc K (freeRows K) [] (by simp [freeRows])
+    (by intro a sa ha; simp at ha) (by intro a b sa sb _ ha; simp at ha)
+  simpa using this
+
+/-! ## non-vacuity -/
+
+/-- a two-priority run with a concrete oracle: p1 `x ≥ 2` (range (-10, 10)) answered with ε = 1/4
+    (x = -1), p2 minimise x answered with x = -1: the hypotheses of `C02_no_degradation` hold and the
+    retained bound `2 + 1/4·(-12) = -1 ≤ x` is what the second answer meets. -/
+example :
+    let g1 : Goal := { fk := "x", tmin := .scalar (.fin 2), rangeLo := [.fin (-10)], rangeHi := [.fin 10],
+                       rangeDefault := false }
+    let g2 : Goal := { fk := "m", priority := 2 }
+    let s1 : Sol := { fval := fun _ _ => -1, eps := fun _ _ => 1/4 }
+    (convertAll {} 1 s1 [] [g1]).get ("x", 0) = some ⟨EVal.fin (-1), EVal.pinf⟩
+    ∧ hardStep {} g2 s1 0 0 = ⟨EVal.ninf, EVal.fin (-1)⟩ := by
+  decide +kernel
+
+example : ObjNoDegr false (1/2) 0 [fun _ => 3, fun k => if k = 0 then 7/2 else 1] := by
+  intro a b sa sb hab ha hb
+  have : a = 0 ∧ b = 1 := by
+    have hb' := (List.getElem?_eq_some_iff.1 hb).1
+    simp at hb'
+    omega
+  obtain ⟨rfl, rfl⟩ := this
+  simp at ha hb
+  subst ha hb
+  simp
+  norm_num
+
 end RtcVerif.C02
